@@ -733,6 +733,31 @@ def monitor_independence(group):
     return bad
 
 
+# the corners in which the unchanged py-pde deviates from the literal statement of C08; a monitor failure gets one
+# of these keys only if the monitor has recognised the corner from the data of the failing run
+KNOWN_CORNERS = {
+    "scheduled-at-t_end-missed": {
+        "what": "every scheduled time <= t_end is served", "corner": "t_end = t_final + 1e-6*dt"},
+    "adaptive-served-with-another-tracker": {
+        "what": "adaptive stepper serves each scheduled time exactly at it", "corner": "another tracker due up to dt/2 earlier"},
+    "whole-range-sliver-frame": {
+        "call_site": "Controller._run_main_process final handle (atol = 1e-6*dt)",
+        "what": "floor(T/D)+1 frames on a range that is a whole number of steps",
+        "corner": "scheduled time in (t_end, t_end + 1e-6*dt) is served at t_end"},
+    "extra-frame-before-final-time": {
+        "call_site": "Controller._run_main_process main loop (tracker_atol = dt/2)",
+        "what": "the one frame more than floor(T/D)+1 is taken at the final time",
+        "corner": "scheduled time in (t_end, t_end + dt/2) is served one step before t_final"},
+}
+
+
+def failure_key(what, corner=None):
+    """key of a C08 monitor failure for known_findings.json"""
+    if corner in KNOWN_CORNERS:
+        return dict(KNOWN_CORNERS[corner])
+    return {"what": what.split(" of ")[0][:60]}
+
+
 def final_handle_time(case, t):
     """was a handle at time `t` the final one (loop condition `t < t_end - 1e-6*dt` false)?"""
     return not (t < case["t_end"] - EPS * case["dt"])
@@ -776,10 +801,13 @@ def monitor_trackers(case, real):
         if real["frames"][i] != exp_f:
             bad.append((f"recorded frames of {tr['kind']} tracker {i}", real["frames"][i], exp_f))
     stopped = bool(real["raised"])
-    # constant schedules with D >= dt: every scheduled time served exactly once within dt/2
+    # constant schedules with D >= dt: every scheduled time served exactly once within dt/2, and the frame count
+    # of the property text, clause by clause (the literal statement; the corners in which the unchanged code
+    # deviates from it are recognised from the data of the run and named in the 4th entry, see KNOWN_CORNERS)
+    whole = case.get("N") is not None and not (case.get("delta") or 0.0)
     for i, tr in enumerate(case["trackers"]):
         s = tr["sched"]
-        if s["kind"] != "constant" or s["dt"] < dt:
+        if s["kind"] != "constant" or not (s["dt"] >= dt):
             continue
         D = s["dt"]
         tau0 = t0 if s.get("t_start") is None else max(t0, s["t_start"])
@@ -789,29 +817,50 @@ def monitor_trackers(case, real):
             if not (abs(t - sig) <= dt / 2 + tol):
                 bad.append((f"call {k} of constant tracker {i} within dt/2 of its scheduled time", t, sig))
                 break
-        if not stopped and t1 >= t0:
-            F = Fraction if exact else float
-            sig = [F(tau0) + k * F(D) for k in range(len(calls) + 3)]
-            # the code's own scheduled times: `_t_next += D` starting at tau0 (no catch-up for D >= dt), so
-            # "scheduled time <= t_end" is decided on exactly the numbers the code compares (no tolerance)
-            acc, a = [], tau0
-            for _ in range(len(calls) + 3):
-                acc.append(a)
-                a = a + D
-            lo = sum(1 for x in acc if x <= t1)
-            # the final handle (atol = 1e-6 dt) also serves a scheduled time in the sliver
-            # (t_end, t_end + 1e-6 dt): the code's round-off allowance
-            hi = sum(1 for x in sig if x < F(t1) + F(EPS) * F(dt) + F(tol) + abs(F(case.get("delta") or 0.0)))
-            if len(calls) < lo:
-                bad.append((f"every scheduled time <= t_end of constant tracker {i} is served", 
-                            {"calls": calls[-3:], "n_calls": len(calls), "t_final": tf},
-                            {"scheduled times <= t_end": lo, "last": acc[lo - 1], "t_end": t1}))
-            elif case.get("N") is not None:
-                if not len(calls) <= hi:
-                    bad.append((f"constant tracker {i} is handled floor(T/D)+1 times on a whole range", len(calls),
-                                lo if lo == hi else f"{lo}..{hi}"))
-            elif not len(calls) <= hi + 1:
-                bad.append((f"constant tracker {i} is handled floor(T/D)+1 times or once more", len(calls), f"{lo}..{hi + 1}"))
+        if stopped or not t1 >= t0:
+            continue
+        # the code's own scheduled times: `_t_next += D` starting at tau0 (no catch-up for D >= dt), so
+        # "scheduled time <= t_end" is decided on exactly the numbers the code compares
+        acc, a = [], tau0
+        for _ in range(len(calls) + 3):
+            acc.append(a)
+            a = a + D
+        lo = sum(1 for x in acc if x <= t1)           # floor(T/D) + 1 for tau0 = t_start
+        lo_hi = sum(1 for x in acc if x <= t1 + tol)  # the same up to round-off (decimal numbers)
+        n = len(calls)
+        what_count = "floor(T/D)+1" if tau0 == t0 else "#{k: tau0 + k*D <= t_end}"
+        if n < lo:
+            sig = acc[n]
+            corner = None
+            if not (tf > sig - EPS * dt) and not (tf < t1 - EPS * dt):
+                # the loop stopped at t_final >= t_end - 1e-6*dt and the final handle tests t > t_next - 1e-6*dt
+                # strictly: a time scheduled at t_end = t_final + 1e-6*dt is due for neither
+                corner = "scheduled-at-t_end-missed"
+            bad.append((f"every scheduled time <= t_end of constant tracker {i} is served",
+                        {"calls": calls[-3:], "n_calls": n, "t_final": tf},
+                        {"scheduled times <= t_end": lo, "first missed": sig, "t_end": t1}, corner))
+        elif whole:
+            if n > lo_hi:
+                sig = acc[n - 1]
+                corner = None
+                if n == lo_hi + 1 and t1 < sig <= t1 + EPS * dt + tol and tf > sig - EPS * dt and abs(calls[-1] - tf) <= tol:
+                    corner = "whole-range-sliver-frame"
+                bad.append((f"constant tracker {i} is handled {what_count} times on a range that is a whole number of steps",
+                            {"n_calls": n, "last calls": calls[-3:], "t_final": tf},
+                            {"expected": lo if lo == lo_hi else f"{lo}..{lo_hi}", "scheduled": acc[max(0, n - 2):n], "t_end": t1},
+                            corner))
+        else:
+            if n > lo_hi + 1:
+                bad.append((f"constant tracker {i} is handled {what_count} times or once more", n, f"{lo}..{lo_hi + 1}"))
+            elif n == lo_hi + 1 and not (abs(calls[-1] - tf) <= tol):
+                sig = acc[n - 1]
+                corner = None
+                if sig > t1 and calls[-1] < tf and calls[-1] > sig - dt / 2 - tol:
+                    # scheduled after t_end but within dt/2 of the last lattice time before t_final: served there
+                    corner = "extra-frame-before-final-time"
+                bad.append((f"the one frame more than {what_count} of constant tracker {i} is taken at the final time",
+                            {"last call": calls[-1], "t_final": tf, "n_calls": n},
+                            {"served scheduled time": sig, "t_end": t1, "scheduled times <= t_end": lo}, corner))
     # fixed lists whose entries inside the range are at least dt apart: each served exactly once within dt/2
     for i, tr in enumerate(case["trackers"]):
         s = tr["sched"]
@@ -871,11 +920,13 @@ def monitor_trackers(case, real):
     return bad
 
 
-def monitor_exact(case, real, strict_exact=False):
+def monitor_exact(case, real, strict_exact=True):
     """C08 for steppers that reach their target exactly (ScipySolver, adaptive steppers): calls at strictly
-    increasing action times; a constant schedule is never served late and at most dt/2 early; a single tracker
-    starting at t_start is served exactly at its scheduled times (`strict_exact`: demanded of every tracker,
-    which is what the property text says and what fails when another tracker is due up to dt/2 earlier)"""
+    increasing action times; a constant schedule starting at t_start is never served late and - the clause
+    "exactly at it for adaptive steppers", `strict_exact` - every call is exactly at its scheduled time.  The
+    unchanged code violates the clause when another tracker is due up to dt/2 earlier (both are served
+    together): recognised from the data of the run and named in the 4th entry (see KNOWN_CORNERS).
+    `strict_exact=False`: the clause is demanded of a single tracker only."""
     bad = []
     dt, t0, t1 = case["dt"], case["t_start"], case["t_end"]
     # adaptive steppers: the last step of a segment is `max(t_end - t, dt_min)` with dt_min = 1e-10, so the target
@@ -892,32 +943,47 @@ def monitor_exact(case, real, strict_exact=False):
         if rt == 0.0 and t not in action:
             bad.append(("tracker time is an action time (t_start, t_end or a scheduled time)", t, "one of the schedules"))
         ref = case["u0"] + (t - t0)
-        if case["eq"] == "one" and abs(u - ref) > 1e-6 * max(1.0, abs(ref)):
+        if case["eq"] == "one" and not (abs(u - ref) <= 1e-6 * max(1.0, abs(ref))):
             bad.append((f"state seen at t={t} is the state of that time", u, ref))
     for i, ev in enumerate(per):
         for a, b in zip(ev, ev[1:]):
             if not b > a:
                 bad.append((f"tracker {i} called at strictly increasing times", b, f"> {a}"))
     stopped = bool(real["raised"])
+
+    def another_on_time(i, t):
+        """is a tracker other than `i` served at `t` because its own action time is `t`?"""
+        for j in range(n_tr):
+            if j != i and any(abs(tt - t) <= rt for tt in per[j]) and \
+                    any(abs(a - t) <= rt for _k, _t, a in real["sched_log"][j]):
+                return True
+        return False
+
     for i, tr in enumerate(case["trackers"]):
         s = tr["sched"]
-        if s["kind"] != "constant" or s["dt"] <= 0:
+        if s["kind"] != "constant" or not s["dt"] > 0:
             continue
         D = s["dt"]
         tau0 = t0 if s.get("t_start") is None else max(t0, s["t_start"])
         a = tau0
         for k, t in enumerate(per[i]):
             if D >= dt:
-                if t > a + rt:
+                if not (t <= a + rt):
                     bad.append((f"call {k} of constant tracker {i} is not late", t, a))
                     break
-                if t < a - dt / 2 - rt:
+                if not case.get("round_off") and not (t >= a - dt / 2 - rt):
+                    # (fixed tolerance dt/2: ScipySolver(dt); the tolerance of an adaptive stepper follows its dt)
                     bad.append((f"call {k} of constant tracker {i} is at most dt/2 early", t, a))
                     break
-                exact_required = strict_exact or (n_tr == 1 and tau0 == t0)
+                # the property's schedule is t_start + k*D: trackers with an own start offset are outside the clause
+                # (a first scheduled time less than dt/2 after t_start is served at t_start)
+                exact_required = (strict_exact or n_tr == 1) and tau0 == t0
+                # a call at t_end for a scheduled time just beyond t_end is the "one frame more, at the final time"
                 sliver = abs(t - t1) <= rt and t1 < a < t1 + EPS * dt_eff + rt
-                if exact_required and abs(t - a) > rt and not sliver:
-                    bad.append((f"call {k} of constant tracker {i} exactly at its scheduled time (adaptive stepper)", t, a))
+                if exact_required and not (abs(t - a) <= rt) and not sliver:
+                    corner = "adaptive-served-with-another-tracker" if (t < a and another_on_time(i, t)) else None
+                    bad.append((f"call {k} of constant tracker {i} exactly at its scheduled time (adaptive stepper)",
+                                {"call": t, "all calls": per[i][:12]}, a, corner))
                     break
             a = a + D
         if D >= dt and not stopped and t1 >= t0:
@@ -942,7 +1008,7 @@ def monitor_exact(case, real, strict_exact=False):
                         [real["stop_reason"], real["successful"]], [exp_reason, kind == "F"]))
     elif real["stop_reason"] != "Reached final time":
         bad.append(("run without stop request reaches the final time", real["stop_reason"], "Reached final time"))
-    elif t1 >= t0 and abs(real["t_final"] - t1) > rt and not (t1 - t0 <= EPS * dt):
+    elif t1 >= t0 and not (abs(real["t_final"] - t1) <= rt) and not (t1 - t0 <= EPS * dt):
         # an exact stepper ends at t_end itself (or, after a last target within 1e-6*dt of it, just before)
         if not (t1 - EPS * dt_eff - rt <= real["t_final"] <= t1 + rt):
             bad.append(("exact stepper ends at t_end", real["t_final"], t1))
